@@ -615,15 +615,28 @@ func checkC03Hist(c any, r *Rec) error {
 			} else {
 				m.maybe = true
 			}
-		case "RenderTemplateString":
-			_, _ = s.RenderTemplateString("r {{ 2 }}", nil)
-			m.frozen = true
-		case "RenderTemplateBytes":
-			_, _ = s.RenderTemplateBytes([]byte("r {{ 3 }}"), nil)
-			m.frozen = true
-		case "RenderTemplateFile":
-			_, _ = s.RenderTemplateFile("/ok.tpl", nil)
-			m.frozen = true
+		case "RenderTemplateString", "RenderTemplateBytes", "RenderTemplateFile":
+			var rerr error
+			switch {
+			case op.Op == "RenderTemplateString" && op.Name == "":
+				_, rerr = s.RenderTemplateString("r {{ 2 }}", nil)
+			case op.Op == "RenderTemplateString":
+				_, rerr = s.RenderTemplateString(op.Name, nil)
+			case op.Op == "RenderTemplateBytes" && op.Name == "":
+				_, rerr = s.RenderTemplateBytes([]byte("r {{ 3 }}"), nil)
+			case op.Op == "RenderTemplateBytes":
+				_, rerr = s.RenderTemplateBytes([]byte(op.Name), nil)
+			case op.Name == "":
+				_, rerr = s.RenderTemplateFile("/ok.tpl", nil)
+			default:
+				_, rerr = s.RenderTemplateFile(op.Name, nil)
+			}
+			// the sources used here never fail at execution time: an error is a failed compilation
+			if rerr == nil {
+				m.frozen = true
+			} else {
+				m.maybe = true
+			}
 		case "CleanCache":
 			// cache maintenance is no way back: the set has created templates and stays frozen
 			if op.Name == "" {
@@ -686,9 +699,9 @@ func genC03Hist(t *rapid.T) *c03Hist {
 			op.Name = pick(t, "tagname", append([]string{"nosuchtag", "if", "if", "lorem", "for"}, tags...))
 		case "BanFilter", "ProbeFilter":
 			op.Name = pick(t, "filtername", append([]string{"nosuchfilter", "upper", "upper", "safe"}, filters...))
-		case "FromString", "FromBytes":
+		case "FromString", "FromBytes", "RenderTemplateString", "RenderTemplateBytes":
 			op.Name = pick(t, "src", []string{"plain", "{{ 1 }}", "{% if %}", "{% lorem %}", `{{ "x"|upper }}`})
-		case "FromFile", "FromCache":
+		case "FromFile", "FromCache", "RenderTemplateFile":
 			op.Name = pick(t, "file", []string{"/ok.tpl", "/bad.tpl", "/missing.tpl"})
 		case "CleanCache":
 			op.Name = pick(t, "cleanname", []string{"", "", "/ok.tpl", "/missing.tpl"})
